@@ -27,6 +27,9 @@ RULES = {
              "storage formats, frozen): the reconciliation runs exactly for stored versions <= 0.13.0 (0.13.1 keeps the balances "
              "itself; re-running it later books tokens the contract merely holds as escrow, skipping it earlier loses the sends in "
              "flight), the v1->v2 conversion exactly for <= 0.12.0-alpha1",
+    "R12.9": "what is booked is what was paid (shared with C11 R11.3): outstanding / total_sent grow only by the coin or cw20 amount "
+             "actually attached to that very transfer - a batch form that books each leg against the whole purse emits packets for "
+             "more than it escrowed",
     "R12.8": "the refund of our own failed / timed-out packet reduces the balance of the channel the packet was sent on "
              "(packet.src.channel_id), for the packet's denom and amount (shared with C11 R11.1)",
     "R12.5": "accounting step: per entry point the channel-state deltas are: transfer +A outstanding and +A total_sent; "
@@ -154,6 +157,9 @@ def run(ctx):
             ctx.ob("R12.6", o.key, st_, detail="; ".join(o.details), sites=o.sites, sample=o.sample)
         elif o.rule == "R11.1" and o.key.startswith(("ibc_packet_ack", "ibc_packet_timeout")):
             ctx.ob("R12.8", o.key, st_, detail="; ".join(o.details), sites=o.sites, sample=o.sample)
+        elif o.rule == "R11.3":
+            # "the amount sent on it": what is added to the balance (and carried by the packet, R12.4) is what was actually paid
+            ctx.ob("R12.9", o.key, st_, detail="; ".join(o.details), sites=o.sites, sample=o.sample)
     check_migrate_gate(ctx, eps)
 
 
